@@ -608,6 +608,17 @@ impl<'tcx> Dumper<'tcx> {
                         }
                     };
                     t.push(("msg", J::Str(kind)));
+                    match &**msg {
+                        AssertKind::BoundsCheck { len, index } => {
+                            t.push(("len", self.operand(ldid, body, len)));
+                            t.push(("index", self.operand(ldid, body, index)));
+                        }
+                        AssertKind::Overflow(_, a, b) => {
+                            t.push(("a", self.operand(ldid, body, a)));
+                            t.push(("b", self.operand(ldid, body, b)));
+                        }
+                        _ => {}
+                    }
                     t.push(("t", J::Int(target.index() as i128)));
                 }
                 TerminatorKind::Yield { value, resume, resume_arg, .. } => {
